@@ -77,7 +77,8 @@ def run_config(items, env):
     data = pd.DataFrame({"y": np.arange(N, dtype=float), "x": np.arange(N, dtype=float) + 1})
     extra = {"probe": probe}
     added = []
-    globs = [dict(design_matrices=design_matrices, np=np) for _ in range(DEPTH)]
+    # callers live in modules of their own; some of them are called like the package (formulae_tools, formulaeX)
+    globs = [dict(design_matrices=design_matrices, np=np, __name__=["caller_module", "formulae_tools", "analysis", "formulaeX"][i_ % 4]) for i_ in range(DEPTH)]
     local_lines = [[] for _ in range(DEPTH)]
     localvals = [dict() for _ in range(DEPTH)]
     try:
